@@ -475,8 +475,14 @@ func moveOutFile(w *bytes.Buffer, param *syntax.StructMember,
 		return err
 	}
 
-	// Generate the relative path from files/ to outs/
-	relPath, err := filepath.Rel(filepath.Dir(filePath), outPath)
+	// Generate the relative path from files/ to outs/.  The directory may
+	// be one that was itself moved to outs/ and replaced by a link, in which
+	// case the link back is relative to where it really is.
+	fileDir := filepath.Dir(filePath)
+	if realDir, err := filepath.EvalSymlinks(fileDir); err == nil {
+		fileDir = realDir
+	}
+	relPath, err := filepath.Rel(fileDir, outPath)
 	if err != nil {
 		if _, err := w.Write(value); err != nil {
 			return err
